@@ -15,6 +15,13 @@ Ops (every line is self-contained; `-` = empty list / absent coin, `%` = empty s
 <market> = ex=0|1 ao=0|1 us=0|1 ac=0|1 caf= cbf= ccf= ssf= bsf= (coins) ssr= bsr= (ratios
 `pd:pa:fd:fa|…`) ra= rb= rc= (required attributes as requested at market creation).
 <message> = assets= price= sflat= cfee= fees= amount=.
+Optional history around the creation of the market (all sent by the governance authority for
+the market's id): `pre=<steps>` before the market is created (with `ex=0`: for an id that
+never becomes a market), `post=<steps>` after it.  `<steps>` = `step;step;…` with
+  ao0|ao1|us0|us1|ac0|ac1   MsgMarketUpdateAcceptingOrders / UserSettle / AcceptingCommitments
+  close                     MsgGovCloseMarket
+  F<kind>/<remove>/<add>    MsgGovManageFees, kind caf|cbf|ccf|ssf|bsf (coins) or ssr|bsr (ratios)
+  R<kind>/<remove>/<add>    MsgMarketManageReqAttrs, kind ra|rb|rc (names `a|b`)
 -/
 import PvModel.AdmitSpec
 -- registry: admit PvModel.Admit.driver
@@ -72,6 +79,45 @@ def parseMarket (ws : List String) : Option (Option Market) := do
     acceptingCommitments := flag ws "ac" false,
     reqAsk := getStrs ws "ra", reqBid := getStrs ws "rb", reqCommit := getStrs ws "rc" }
 
+def parseStrs (s : String) : List String := (splitList s).map decodeStr
+
+def parseStep? (s : String) : Option Step :=
+  match s with
+  | "ao0" => some (.acceptingOrders false)
+  | "ao1" => some (.acceptingOrders true)
+  | "us0" => some (.userSettle false)
+  | "us1" => some (.userSettle true)
+  | "ac0" => some (.acceptingCommitments false)
+  | "ac1" => some (.acceptingCommitments true)
+  | "close" => some .close
+  | _ =>
+    match s.splitOn "/" with
+    | [hd, rem, add] =>
+      let flat (k : FlatKind) : Option Step := do
+        let r ← parseCoins? rem
+        let a ← parseCoins? add
+        return .flatFees k r a
+      let ratio (seller : Bool) : Option Step := do
+        let r ← (splitList rem).mapM parseRatio?
+        let a ← (splitList add).mapM parseRatio?
+        return .ratios seller r a
+      match hd with
+      | "Fcaf" => flat .ask
+      | "Fcbf" => flat .bid
+      | "Fccf" => flat .commit
+      | "Fssf" => flat .seller
+      | "Fbsf" => flat .buyer
+      | "Fssr" => ratio true
+      | "Fbsr" => ratio false
+      | "Rra" => some (.reqAttrs .ask (parseStrs rem) (parseStrs add))
+      | "Rrb" => some (.reqAttrs .bid (parseStrs rem) (parseStrs add))
+      | "Rrc" => some (.reqAttrs .commit (parseStrs rem) (parseStrs add))
+      | _ => none
+    | _ => none
+
+def getSteps (ws : List String) (k : String) : Option (List Step) :=
+  (splitList ((kv ws k).getD "-") ";").mapM parseStep?
+
 def showR : Except Rej Unit → String
   | .ok _ => "ok"
   | .error e => e.toString
@@ -108,11 +154,18 @@ structure Parsed where
   requested : Option Market
   attrs : List String
   bal : Coins
+  hist : History
+
+/-- the store entries under the market's id at the end of the line's history (model) -/
+def Parsed.store (p : Parsed) : MStore := p.hist.run
 
 def parseCommon (ws : List String) : Option Parsed := do
   let mk ← parseMarket ws
   let bal ← getCoins ws "bal"
-  return { requested := mk, attrs := getStrs ws "attrs", bal := bal }
+  let pre ← getSteps ws "pre"
+  let post ← getSteps ws "post"
+  return { requested := mk, attrs := getStrs ws "attrs", bal := bal,
+           hist := { pre := pre, requested := mk, post := post } }
 
 def parseAsk (ws : List String) : Option AskMsg := do
   let assets ← (kv ws "assets") >>= parseCoin?
@@ -181,24 +234,24 @@ def run (ws : List String) : String :=
     s!"ok {boolStr (acctHasReqAttrs stored attrs)}"
   | "createask" :: rest =>
     match parseCommon rest, parseAsk rest with
-    | some p, some m => showR (createAsk (p.requested.map storeMarket) p.attrs p.bal m)
+    | some p, some m => showR (createAsk p.store.view p.attrs p.bal m)
     | _, _ => "bad-op"
   | "createbid" :: rest =>
     match parseCommon rest, parseBid rest with
-    | some p, some m => showR (createBid (p.requested.map storeMarket) p.attrs p.bal m)
+    | some p, some m => showR (createBid p.store.view p.attrs p.bal m)
     | _, _ => "bad-op"
   | "commit" :: rest =>
     match parseCommon rest, parseCommit rest with
-    | some p, some m => showR (commitFunds (p.requested.map storeMarket) p.attrs p.bal m)
+    | some p, some m => showR (commitFunds p.store p.attrs p.bal m)
     | _, _ => "bad-op"
   | "fillbids" :: rest =>
     match parseCommon rest, getCoin rest "cfee", getCoin rest "sflat" with
-    | some p, some cfee, some sflat => showR (fillBidsGate (p.requested.map storeMarket) p.attrs cfee sflat)
+    | some p, some cfee, some sflat => showR (fillBidsGate p.store.view p.attrs cfee sflat)
     | _, _, _ => "bad-op"
   | "fillasks" :: rest =>
     match parseCommon rest, getCoin rest "cfee", (kv rest "price") >>= parseCoin?, getCoins rest "fees" with
     | some p, some cfee, some price, some fees =>
-      showR (fillAsksGate (p.requested.map storeMarket) p.attrs cfee price fees)
+      showR (fillAsksGate p.store.view p.attrs cfee price fees)
     | _, _, _, _ => "bad-op"
   | _ => "bad-op"
 
@@ -290,68 +343,72 @@ def check (ws : List String) (impl : String) : String :=
   | "createask" :: rest =>
     match parseCommon rest, parseAsk rest with
     | some p, some m =>
-      match p.requested with
+      match p.hist.configInForce with
       | none => verdictAdmit "createask" impl true [("invalid", m.valid), ("market", false)] false
-      | some rq =>
-        let g := marketFlatsWf rq && (!m.valid || askWfB rq.sellerRatios m.price m.sflat)
+      | some c =>
+        let g := marketFlatsWf c && (!m.valid || askWfB c.sellerRatios m.price m.sflat)
         verdictAdmit "createask" impl g
-          [("invalid", m.valid), ("closed", rq.acceptingOrders),
-           ("attr", decide (AttrsOkNorm rq.reqAsk p.attrs)),
-           ("fee", decide (FlatFeeOk rq.createAskFlat m.cfee) && decide (FlatFeeOk rq.sellerFlat m.sflat)),
-           ("price", decide (AskPriceOk rq.sellerRatios m.price m.sflat)),
+          [("invalid", m.valid), ("closed", c.acceptingOrders),
+           ("attr", decide (AttrsOk c.reqAsk p.attrs)),
+           ("fee", decide (FlatFeeOk c.createAskFlat m.cfee) && decide (FlatFeeOk c.sellerFlat m.sflat)),
+           ("price", decide (AskPriceOk c.sellerRatios m.price m.sflat)),
            ("funds", decide (FundsOk p.bal m.cfee m.holdAmount))] false
     | _, _ => "-"
   | "createbid" :: rest =>
     match parseCommon rest, parseBid rest with
     | some p, some m =>
-      match p.requested with
+      match p.hist.configInForce with
       | none => verdictAdmit "createbid" impl true [("invalid", m.valid), ("market", false)] false
-      | some rq =>
-        let g := marketFlatsWf rq && (!m.valid || buyerWfB rq.buyerFlat rq.buyerRatios m.price)
+      | some c =>
+        let g := marketFlatsWf c && (!m.valid || buyerWfB c.buyerFlat c.buyerRatios m.price)
         verdictAdmit "createbid" impl g
-          [("invalid", m.valid), ("closed", rq.acceptingOrders),
-           ("attr", decide (AttrsOkNorm rq.reqBid p.attrs)),
-           ("fee", decide (FlatFeeOk rq.createBidFlat m.cfee) &&
-                   decide (BuyerFeeOk rq.buyerFlat rq.buyerRatios m.price m.fees)),
+          [("invalid", m.valid), ("closed", c.acceptingOrders),
+           ("attr", decide (AttrsOk c.reqBid p.attrs)),
+           ("fee", decide (FlatFeeOk c.createBidFlat m.cfee) &&
+                   decide (BuyerFeeOk c.buyerFlat c.buyerRatios m.price m.fees)),
            ("funds", decide (FundsOk p.bal m.cfee m.holdAmount))] false
     | _, _ => "-"
   | "commit" :: rest =>
     match parseCommon rest, parseCommit rest with
     | some p, some m =>
-      match p.requested with
+      match p.hist.configInForce with
       | none => verdictAdmit "commit" impl true [("invalid", m.valid), ("market", false)] false
-      | some rq =>
-        let normOnly := decide (AttrsOkNorm rq.reqCommit p.attrs) && !decide (AttrsOk rq.reqCommit p.attrs)
-        verdictAdmit "commit" impl (marketFlatsWf rq)
-          [("invalid", m.valid), ("closed", rq.acceptingCommitments),
-           ("attr", decide (AttrsOkNorm rq.reqCommit p.attrs)),
-           ("fee", decide (FlatFeeOk rq.createCommitFlat m.cfee)),
+      | some c =>
+        -- admissible only because the requested names are normalised (tag of a fixed finding)
+        let normOnly := match p.requested with
+          | some rq => p.hist.pre.isEmpty && p.hist.post.isEmpty && decide (AttrsOkNorm rq.reqCommit p.attrs) &&
+                       !decide (AttrsOk rq.reqCommit p.attrs)
+          | none => false
+        verdictAdmit "commit" impl (marketFlatsWf c)
+          [("invalid", m.valid), ("closed", c.acceptingCommitments),
+           ("attr", decide (AttrsOk c.reqCommit p.attrs)),
+           ("fee", decide (FlatFeeOk c.createCommitFlat m.cfee)),
            ("funds", decide (FundsOk p.bal m.cfee m.amount))] normOnly
     | _, _ => "-"
   | "fillbids" :: rest =>
     match parseCommon rest, getCoin rest "cfee", getCoin rest "sflat" with
     | some p, some cfee, some sflat =>
-      match p.requested with
+      match p.hist.configInForce with
       | none => verdictAdmit "fillbids" impl true [("invalid", fillBidsValid cfee sflat), ("market", false)] false
-      | some rq =>
-        verdictAdmit "fillbids" impl (marketFlatsWf rq)
-          [("invalid", fillBidsValid cfee sflat), ("closed", rq.acceptingOrders), ("usersettle", rq.userSettle),
-           ("attr", decide (AttrsOkNorm rq.reqAsk p.attrs)),
-           ("fee", decide (FlatFeeOk rq.createAskFlat cfee) && decide (FlatFeeOk rq.sellerFlat sflat))] false
+      | some c =>
+        verdictAdmit "fillbids" impl (marketFlatsWf c)
+          [("invalid", fillBidsValid cfee sflat), ("closed", c.acceptingOrders), ("usersettle", c.userSettle),
+           ("attr", decide (AttrsOk c.reqAsk p.attrs)),
+           ("fee", decide (FlatFeeOk c.createAskFlat cfee) && decide (FlatFeeOk c.sellerFlat sflat))] false
     | _, _, _ => "-"
   | "fillasks" :: rest =>
     match parseCommon rest, getCoin rest "cfee", (kv rest "price") >>= parseCoin?, getCoins rest "fees" with
     | some p, some cfee, some price, some fees =>
-      match p.requested with
+      match p.hist.configInForce with
       | none => verdictAdmit "fillasks" impl true [("invalid", fillAsksValid cfee price fees), ("market", false)] false
-      | some rq =>
+      | some c =>
         let v := fillAsksValid cfee price fees
-        let g := marketFlatsWf rq && (!v || buyerWfB rq.buyerFlat rq.buyerRatios price)
+        let g := marketFlatsWf c && (!v || buyerWfB c.buyerFlat c.buyerRatios price)
         verdictAdmit "fillasks" impl g
-          [("invalid", v), ("closed", rq.acceptingOrders), ("usersettle", rq.userSettle),
-           ("attr", decide (AttrsOkNorm rq.reqBid p.attrs)),
-           ("fee", decide (FlatFeeOk rq.createBidFlat cfee) &&
-                   decide (BuyerFeeOk rq.buyerFlat rq.buyerRatios price fees))] false
+          [("invalid", v), ("closed", c.acceptingOrders), ("usersettle", c.userSettle),
+           ("attr", decide (AttrsOk c.reqBid p.attrs)),
+           ("fee", decide (FlatFeeOk c.createBidFlat cfee) &&
+                   decide (BuyerFeeOk c.buyerFlat c.buyerRatios price fees))] false
     | _, _, _, _ => "-"
   | _ => "-"
 
